@@ -12,7 +12,6 @@ import (
 	"testing"
 	"time"
 
-	"github.com/safing/portbase/api"
 	"pgregory.net/rapid"
 
 	"verifharness/internal/stats"
@@ -353,6 +352,9 @@ func applyWorld(t fataler, w *world, keys []keyEntry, dev bool) {
 // arbitrary int8 declarations (dyn handler) and more method variants than the
 // enumerated table has.
 func TestPropTableSample(t *testing.T) {
+	if replayed(t) {
+		return
+	}
 	rapid.Check(t, func(t *rapid.T) {
 		w := newWorld()
 		keys := rapid.SliceOfN(genKeyEntry(), 0, 6).Draw(t, "keys")
@@ -406,6 +408,9 @@ func TestPropTableSample(t *testing.T) {
 // TestPropHistories: sequences of key changes, session creation / use / ageing /
 // reset / cleaning and dev mode switches, with requests in between.
 func TestPropHistories(t *testing.T) {
+	if replayed(t) {
+		return
+	}
 	rapid.Check(t, func(t *rapid.T) {
 		w := newWorld()
 		applyWorld(t, w, rapid.SliceOfN(genKeyEntry(), 0, 4).Draw(t, "keys0"), false)
@@ -444,7 +449,7 @@ func TestPropHistories(t *testing.T) {
 					fmt.Fprintf(&cs.fp, "|reset")
 				}
 			case 4:
-				api.VerifCleanSessions()
+				w.cleanSessions()
 				fmt.Fprintf(&cs.fp, "|clean")
 			default:
 				host := "portmaster.test"
@@ -503,6 +508,109 @@ func TestPropHistories(t *testing.T) {
 		}
 		cs.nontriv = true
 		cs.done("history")
+	})
+}
+
+// TestPropExpiryHistories: keys that expire *while they are loaded*. portbase
+// drops expired keys only when it imports the configuration; in between,
+// checkAPIKey has to refuse them at request time. A case configures 1-3
+// permanent keys and 1-2 keys that live for a few hundred milliseconds, sends
+// requests before the expiry, waits (no import happens), and then sends 3-9
+// requests in which the expired keys, valid keys, unknown / short / malformed
+// credentials and no credentials alternate, optionally followed by a
+// re-configuration. Every request must be decided as the reference says and
+// must return; so must every key import.
+func TestPropExpiryHistories(t *testing.T) {
+	if replayed(t) {
+		return
+	}
+	rapid.Check(t, func(t *rapid.T) {
+		w := newWorld()
+		w.setDev(t, false)
+		defer w.setKeys(t, []string{}, false) // leave no expired key behind for the next case
+
+		perm := rapid.SliceOfNDistinct(rapid.SampledFrom(keyPool[:4]), 1, 3, rapid.ID[string]).Draw(t, "permanent")
+		var entries []string
+		for _, k := range perm {
+			entries = append(entries, keyEntry{Key: k, Read: rapid.IntRange(1, 3).Draw(t, "pr"), Write: rapid.IntRange(1, 3).Draw(t, "pw")}.render())
+		}
+		life := rapid.SampledFrom([]int{350, 500}).Draw(t, "life_ms")
+		expKeys := rapid.SliceOfNDistinct(rapid.SampledFrom([]string{"kx-expiring-1a2b", "ky-expiring-3c4d", "abcd"}), 1, 2, rapid.ID[string]).Draw(t, "expiring")
+		var expiring []expiringEntry
+		for _, k := range expKeys {
+			expiring = append(expiring, expiringEntry{Entry: keyEntry{Key: k, Read: rapid.IntRange(2, 3).Draw(t, "er"), Write: rapid.IntRange(1, 3).Draw(t, "ew")}.render(), AfterMs: life})
+		}
+		cs := newCaseStats()
+		fmt.Fprintf(&cs.fp, "|perm%v|exp%v", entries, expiring)
+		if !w.setKeysExpiring(t, entries, expiring) {
+			stats.Class("expiry:case_skipped_import_slower_than_key_life")
+			return
+		}
+
+		credential := func(label string) string {
+			pool := append(append([]string{}, perm...), expKeys...)
+			switch rapid.IntRange(0, 9).Draw(t, label) {
+			case 0, 1, 2, 3:
+				k := rapid.SampledFrom(expKeys).Draw(t, label+"_exp")
+				if rapid.Bool().Draw(t, label+"_basic") {
+					return basicKey(k)
+				}
+				return "Bearer " + k
+			case 4, 5:
+				return "Bearer " + rapid.SampledFrom(perm).Draw(t, label+"_perm")
+			case 6:
+				return basicKey(rapid.SampledFrom(pool).Draw(t, label+"_any"))
+			case 7:
+				return rapid.SampledFrom([]string{"Bearer not-configured", "Bearer xy", "Basic !!!", "Token abc", "Bearer"}).Draw(t, label+"_bad")
+			default:
+				return ""
+			}
+		}
+		request := func(i int, authz string, stable bool) {
+			mv := methodVariants[rapid.IntRange(0, 4).Draw(t, "m")]
+			h := rapid.SampledFrom([]handlerSpec{{"raw", pDynamic, pDynamic}, {"raw", pUser, pAdmin}, {"wrap", pAdmin, pUser}, {"ep:action", pUser, pUser}, {"ep:data", pDynamic, pAdmin}, {Kind: "meta-permissions"}, {"raw", pAnyone, pSelf}}).Draw(t, "h")
+			if h.Kind == "meta-permissions" {
+				mv.method = http.MethodGet
+			}
+			q := reqSpec{H: h, Method: mv.method, Host: "portmaster.test", Authz: authz}
+			var o outcome
+			if stable {
+				var ok bool
+				if _, o, ok = w.stepStable(t, q); !ok {
+					return
+				}
+			} else {
+				_, o = w.step(t, q) // no import: the configuration does not change, the expired keys stay loaded
+			}
+			cs.request(w, q, o)
+		}
+
+		// before the expiry
+		for i, n := 0, rapid.IntRange(0, 3).Draw(t, "before"); i < n; i++ {
+			request(i, credential("cb"), false)
+		}
+		w.waitExpiry()
+		// after the expiry: the first request usually presents an expired key
+		n := rapid.IntRange(3, 9).Draw(t, "after")
+		reconfigured := false
+		for i := 0; i < n; i++ {
+			if i > 1 && !reconfigured && rapid.IntRange(0, 7).Draw(t, "reconf") == 0 {
+				// re-configuration drops the expired keys from the table (permanent keys only, nothing to clean up)
+				keep := entries[:rapid.IntRange(0, len(entries)).Draw(t, "keep")]
+				w.setKeys(t, append([]string{}, keep...), false)
+				reconfigured = true
+				fmt.Fprintf(&cs.fp, "|reconf%v", keep)
+				stats.Class("expiry:reconfiguration_after_expiry")
+				continue
+			}
+			authz := credential("ca")
+			if i == 0 && rapid.IntRange(0, 3).Draw(t, "first") > 0 {
+				authz = "Bearer " + expKeys[0]
+			}
+			request(i, authz, reconfigured)
+		}
+		cs.nontriv = true
+		cs.done("expiry")
 	})
 }
 
